@@ -10,7 +10,17 @@ RULE = ("S->C: for every generated integer / bits / VarUInteger type (all widths
         "structures (MsgAddress, Anycast, Grams, CurrencyCollection, CommonMsgInfo, StateInit, Message, ...) are encoded by the "
         "library and compared with Enc under the schema transcribed from block.tlb (tools/tlb2json.py); every message of the real "
         "blocks is decoded from its source cell and the schema's encoding of the decoded value must be that source cell, as must the "
-        "library's re-encoding; every transaction is re-encoded and compared where it holds no dictionary entries. Non-trivial = "
+        "library's re-encoding; every transaction is re-encoded and compared where it holds no dictionary entries. In addition the "
+        "specification's total decoder TlbDec!Dec reads every recorded cell under the same schema and must return exactly the recorded "
+        "value with nothing left unread: this also judges records holding NON-EMPTY dictionaries (transactions with out-messages, "
+        "extra currencies, libraries), for which Enc prescribes no unique cell. More of block.tlb (spec/schemas/block_more.tlb: "
+        "Account, AccountStorage, AccountState, ShardAccount, DepthBalanceInfo, InMsg, OutMsg, MsgEnvelope, IntermediateAddress, "
+        "ImportFees, BlockInfo with its conditional and parametrised fields, BlkPrevInfo, ExtBlkRef, ShardIdent, GlobalVersion, "
+        "ValueFlow v1/v2) judges, for each real block of the repository (six), its BlockInfo and ValueFlow, every entry of its "
+        "InMsgDescr and OutMsgDescr (leaf = extra value, found by the driver's own dictionary walk, which must list the same keys "
+        "as the library) and every account record reachable in the old and new shard state of its Merkle update (records whose "
+        "sub-cells are pruned away are only required not to be mis-read). Quick samples the entries of the large blocks and skips "
+        "records that unfold beyond 400 cells (thorough: all entries, 1000 cells). Non-trivial = "
         "anything but the all-zero value; distinct = distinct (type, cell).")
 
 
@@ -42,8 +52,27 @@ def run(ck):
         return ck.validate_events("Tlb_Trace", "trace/Tlb_Trace.cfg", tp, timeout=3000, name="trace_" + os.path.basename(tp)[6:8], heap_gb=3,
                                   extra_files={"schema.json": schema})
     kinds, distinct = {}, set()
+    judged = {"enc": 0, "dec": 0, "enc+dec": 0, "none": 0}
+    real = {}          # type -> {records, by Enc, by Dec, with a non-empty dictionary judged by Dec, not decidable (pruned), too big}
+    def rec(t):
+        return real.setdefault(t, {"records": 0, "judged_by_Enc": 0, "judged_by_Dec": 0, "judged_by_Dec_only": 0, "pruned_not_comparable": 0, "too_big_skipped": 0})
     for tp, (res, rejected) in zip(traces, vlib.parallel(val, traces, n=8)):
         notes = cellcommon.notes_by_line(res)
+        by = {t[1]: t[2] for t in res.tuples("JD")}
+        for b in by.values():
+            judged[b] = judged.get(b, 0) + 1
+        for ln, l in enumerate(open(tp), 1):
+            e = json.loads(l)
+            if e.get("k") == "TooBig":
+                rec(e["type"])["too_big_skipped"] += 1
+            if e.get("k") != "DECSRC":
+                continue
+            r = rec(e["type"]); r["records"] += 1
+            b = by.get(ln, "")
+            r["judged_by_Enc"] += b in ("enc", "enc+dec")
+            r["judged_by_Dec"] += b in ("dec", "enc+dec")
+            r["judged_by_Dec_only"] += b == "dec"
+            r["pruned_not_comparable"] += (b == "none" and bool(e.get("exotic")))
         for rj in rejected:
             e = rj["event"]
             note = (notes.get(rj["line"]) or [["no-action"]])[0][0]
@@ -58,6 +87,13 @@ def run(ck):
             if e.get("k") in ("ENC", "DECSRC", "REENC") and e.get("tree"):
                 distinct.add((e["type"], e["tree"][:200], len(e["tree"])))
     ck.extra["events_by_kind"] = kinds
+    ck.extra["bits_judged_by"] = judged
+    ck.extra["events_judged_by_Dec"] = judged["dec"] + judged["enc+dec"]
+    ck.extra["events_judged_by_Dec_only_nonunique_encoding"] = judged["dec"]
+    ck.extra["real_records"] = real
+    for t in ("Transaction", "Message", "BlockInfo", "ValueFlow", "InMsgDescrLeaf", "OutMsgDescrLeaf", "ShardAccountsLeaf"):
+        if real.get(t, {}).get("judged_by_Dec", 0) < 1:
+            raise Infra("no real %s record was judged by the specification's decoder" % t)
     if kinds.get("DECSRC", 0) < 50:
         raise Infra("only %d real messages were decoded" % kinds.get("DECSRC", 0))
     evs = [e for e in vlib.read_ndjson(traces[0])]
